@@ -94,9 +94,20 @@ def getitem_rules(model, R):
         want = f'self.{cls}.frommembers({f.params[1]}).prime()'
         raws = [v for v in vals if src(v) == want]
         labs = [v for v in vals if src(v) == want + '.members()']
-        R.check(len(raws) == 1 and len(labs) == 1 and len(vals) == 2, 'DERIVATION-API', f, f.node,
-                f'{name}: derivation of exactly the given collection, raw and label forms from the same value',
-                f'{want} [.members()]', '; '.join(src(v) for v in vals))
+        matches = len(raws) == 1 and len(labs) == 1 and len(vals) == 2
+        me = f.params[0]
+        via_lookup = [n for n in walk(f.body) if (isinstance(n, ast.Subscript) and name_is(n.value, me))
+                      or (isinstance(n, ast.Call) and chain(n.func) == [me, '__getitem__'])]
+        slot = f'{name}: derivation of exactly the given collection, raw and label forms from the same value'
+        if matches:
+            R.ok('DERIVATION-API', f, f.node, slot, '; '.join(src(v) for v in vals))
+        elif via_lookup:
+            # a recognised wrong route: the concept lookup tries the labels as objects first and as properties second, closes
+            # them and treats the empty key specially - none of which a single derivation does
+            R.bad('DERIVATION-API', f, via_lookup[0], slot, f'{want} [.members()]', f'routed through the concept lookup: {src(via_lookup[0])[:60]}',
+                  extra={'consequence': 'labels of the other kind are accepted, the empty collection and one-shot iterables behave differently'})
+        else:
+            R.unknown('DERIVATION-API', f, f.node, slot, 'computed differently: ' + '; '.join(src(v) for v in vals)[:160])
         guard = [s for s in f.body if isinstance(s, ast.If) and any(isinstance(b, ast.Return) for b in s.body)]
         ok = len(guard) == 1 and name_is(guard[0].test, f.params[2]) and src(env.expand(guard[0].body[0].value)) == want
         R.check(ok, 'DERIVATION-API', f, f.node, f'{name}: raw form returned iff raw', f'if raw: return <bit set>')
@@ -168,7 +179,18 @@ def lattice_rules(model, R):
         tt, neg = strip_not(t)
         if neg and name_is(tt, key):
             top_ok = chain(ret) == ['self', 'supremum']
-    R.check(int_ok, 'MAPPING', f, f.node, 'lattice[i]: the i-th member of the iteration order', 'if isinstance(key, (int, slice)): return self._concepts[key]')
+    wrong_types = None
+    for s in branches:
+        t0, neg0 = strip_not(s.test)
+        if isinstance(t0, ast.Call) and name_is(t0.func, 'isinstance') and len(t0.args) == 2 and name_is(t0.args[0], key):
+            types = {(chain(e) or ['?'])[-1] for e in (t0.args[1].elts if isinstance(t0.args[1], ast.Tuple) else [t0.args[1]])}
+            if neg0 or not types <= {'int', 'slice', 'Integral'}:
+                wrong_types = (s, f'{"not " if neg0 else ""}isinstance({key}, {src(t0.args[1])})')
+    if wrong_types and not int_ok:
+        R.bad('MAPPING', f, wrong_types[0], 'lattice[i]: positions are told from label collections by being integers', f'isinstance({key}, (int, slice))', wrong_types[1],
+              extra={'consequence': 'a label collection of another type than the ones listed (set, frozenset, dict keys, generator) is used as a list index: TypeError'})
+    else:
+        R.check(int_ok, 'MAPPING', f, f.node, 'lattice[i]: the i-th member of the iteration order', 'if isinstance(key, (int, slice)): return self._concepts[key]')
     int_line = [s.lineno for s in branches if isinstance(s.test, ast.Call) and name_is(s.test.func, 'isinstance')]
     top_line = [s.lineno for s in branches if strip_not(s.test)[1] and name_is(strip_not(s.test)[0], key)]
     if int_line and top_line:
@@ -205,4 +227,5 @@ def run(model, R):
     # the pair is only the closure pair if doubleprime is wired to this context's own table (shared with C01)
     from . import c01
     R.guard('WIRING', None, 'Relation.__new__', c01.relation_new, model, R)
+    R.guard('WIRING', None, '_pair_with closures', c01.closure_rules, model, R)
     return __doc__.strip()
